@@ -128,10 +128,14 @@ pub fn owners(clause: &str) -> &'static [&'static str] {
         "cas-should-succeed" | "cas-should-fail" | "cas-fail-status" | "cas-fail-modified" | "token-zero"
         | "token-reused" | "token-ack" => &["C02"],
         "must-miss-ttl" | "resurrected" | "expired-visible" | "expiry-prolonged" | "expiry-shortened" | "rejected-changed-expiry" | "stored-expiry" => &["C05"],
+        // the flags a retrieval returns are the stored ones: a command that carries no flags and changes
+        // them breaks read-your-writes (C01) as well as its own family's rule
+        "concat-flags" => &["C06", "C01"],
+        "counter-flags" => &["C07", "C01"],
         "add-on-present" | "add-on-absent" | "replace-on-absent" | "replace-on-present" | "concat-on-absent"
-        | "concat-value" | "concat-flags" | "concat-must-succeed" | "rejected-modified" | "nothing-stored"
+        | "concat-value" | "concat-must-succeed" | "rejected-modified" | "nothing-stored"
         | "conditional-store-effect" => &["C06"],
-        "counter-value" | "counter-text" | "counter-flags" | "counter-nonnumeric" | "counter-create"
+        "counter-value" | "counter-text" | "counter-nonnumeric" | "counter-create"
         | "counter-ffffffff" | "counter-must-succeed" => &["C07"],
         "delete-status" | "delete-not-removed" | "flush-immediate" | "flush-deadline" | "flush-status"
         | "removed-visible" | "store-after-flush-affected" => &["C08"],
